@@ -3,7 +3,7 @@
      pypose/lietensor/operation.py : broadcast_inputs
      pypose/lietensor/lietensor.py : *Type.Mul / Act / Adj / AdjT / Jinvp
                                         ( input, out_shape = broadcast_inputs(X, Y)
-                                          out = KERNEL.apply(*input)
+                                          out = KERNEL.apply( *input )
                                           dim = -1 if out.nelement() != 0 else <fallback>.shape[-1]
                                           out.view(out_shape + (dim,)) ),
                                      *Type.Inv / Exp / Log (item-wise on the last dimension),
